@@ -115,7 +115,13 @@ def reach(cells, r, seen=None):
 
 def check_cases(env, res, cases, known_sig=None):
     drv = env.driver
-    outs = drv.ask_many([request(c) for c in cases]) if known_sig is None else [None] * len(cases)
+    outs = [None] * len(cases)
+    if known_sig is None:
+        # frozenset keys: implementation-only (no model side at either level), judged by the monitors alone
+        modelled = [i for i, c in enumerate(cases) if not I.impl_only(c)]
+        outs = [common.Reject('implementation-only: frozenset key')] * len(cases)
+        for i, o in zip(modelled, drv.ask_many([request(cases[i]) for i in modelled])):
+            outs[i] = o
     heap_todo = []
     for case, mout in zip(cases, outs):
         iobs, fails = I.run_impl(case)
@@ -124,7 +130,9 @@ def check_cases(env, res, cases, known_sig=None):
             res.count('combo:' + combo)
         named = iobs.pop('named', None)
         if known_sig is None and hp is not None:
-            if 'skip' in hp:
+            if isinstance(mout, common.Reject) and I.impl_only(case):
+                res.count('heap-skipped:frozenset-key')
+            elif 'skip' in hp:
                 res.count('heap-skipped:' + hp['skip'])
             else:
                 heap_todo.append((case, iobs, hp))
